@@ -315,6 +315,50 @@ func genRespSpec(rng *PRNG, name string) respSpec {
 		pi[method] = op
 		rs.Ops = append(rs.Ops, ro)
 	}
+	if rng.Bool() {
+		// a second operation on the SAME path that documents the same shared response under the same
+		// status: both operations must be able to return it (the usage list of a shared response is
+		// per operation, not per path and status)
+		for _, o := range rs.Ops {
+			var use *respDef
+			for i := range o.Responses {
+				if o.Responses[i].Ref != "" {
+					use = &o.Responses[i]
+					break
+				}
+			}
+			if use == nil {
+				continue
+			}
+			pi := paths[o.Path].(map[string]any)
+			m2 := ""
+			for _, m := range []string{"get", "post", "put", "delete"} {
+				if _, taken := pi[m]; !taken {
+					m2 = m
+					break
+				}
+			}
+			if m2 == "" {
+				continue
+			}
+			orig, _ := pi[strings.ToLower(o.Method)].(map[string]any)
+			twin := map[string]any{"responses": map[string]any{use.Status: map[string]any{"$ref": "#/components/responses/" + use.Ref}}}
+			var pps []any
+			if ps, ok := orig["parameters"].([]any); ok {
+				for _, p := range ps {
+					if pm, ok := p.(map[string]any); ok && pm["in"] == "path" {
+						pps = append(pps, p)
+					}
+				}
+			}
+			if len(pps) > 0 {
+				twin["parameters"] = pps
+			}
+			pi[m2] = twin
+			rs.Ops = append(rs.Ops, respOp{Method: strings.ToUpper(m2), Path: o.Path, Responses: []respDef{*use}, HasParams: len(pps) > 0})
+			break
+		}
+	}
 	if rng.Chance(1, 16) {
 		// goag must refuse this too: ONE operation uses one shared response twice, once by its own
 		// name and once through an alias (two numbered statuses)
